@@ -767,3 +767,92 @@ def _split_match_arms(s, b, e):
             body = s[start:end_]
         arms.append({'lits': lits, 'bind': bind, 'body': body})
     return arms
+
+
+# --------------------------------------------------------------------------------------
+# R19: a local closure `let [mut] NAME = |p1: T1, ..| { BODY };` that captures `&mut` state (outside Verus) and is only ever *called*
+# (`NAME(a1, ..)`) is beta-reduced: the binding is dropped and each call becomes `{ let p1: T1 = a1; ..; { BODY } }`.
+# Refused (returns None -> unsupported construct) when the reduction could change the meaning: the body contains `return` / `?`
+# (they would leave the enclosing function instead of the closure), a parameter name occurs in an argument expression, a free name of
+# the body is re-bound by a `let` between the definition and a call, NAME is used other than in a call, or a parameter lacks a type.
+def r19_inline_closures(s, only=None):
+    toks = list(sig_tokens(s))
+    txt = lambda k: s[toks[k][1]:toks[k][2]]
+    defs = []
+    k = 0
+    while k < len(toks) - 5:
+        if toks[k][0] == 'ident' and txt(k) == 'let':
+            j = k + 1
+            if txt(j) == 'mut':
+                j += 1
+            if toks[j][0] == 'ident' and txt(j + 1) == '=' and txt(j + 2) == '|':
+                name = txt(j)
+                # parameter list up to the closing `|`
+                p = j + 3
+                while p < len(toks) and txt(p) != '|':
+                    if s[toks[p][1]] in OPEN:
+                        ce = match_close(s, toks[p][1])
+                        while p < len(toks) and toks[p][1] < ce:
+                            p += 1
+                        continue
+                    p += 1
+                if p + 1 < len(toks) and txt(p + 1) == '{':
+                    bo = toks[p + 1][1]
+                    be = match_close(s, bo)
+                    q = p + 1
+                    while q < len(toks) and toks[q][1] < be:
+                        q += 1
+                    if q < len(toks) and txt(q) == ';' and (only is None or name in only):
+                        params = split_args(s, toks[j + 2][2], toks[p][1])
+                        defs.append((name, toks[k][1], toks[q][2], params, bo, be))
+                        k = q
+                        continue
+        k += 1
+    if not defs:
+        return s, 0
+    edits = []
+    n = 0
+    for name, db, de, params, bo, be in defs:
+        body = s[bo:be]
+        body_toks = [(t, body[b:e]) for t, b, e in tokens(body)]
+        if any(t == 'comment' and x.startswith('//') for t, x in body_toks):
+            body = ''.join(x for t, x in body_toks if not (t in ('comment', 'doc') and x.startswith('//')))
+        sig = [x for t, x in body_toks if t not in ('ws', 'comment', 'doc')]
+        if 'return' in sig or '?' in sig:
+            return None, 0
+        pnames = []
+        for prm in params:
+            m = re.match(r'\s*(?:mut\s+)?([A-Za-z_]\w*)\s*:\s*(.+)$', prm, re.S)
+            if not m:
+                return None, 0
+            pnames.append((m.group(1), m.group(2).strip()))
+        body_idents = {x for t, x in body_toks if t == 'ident'} - {p for p, _ in pnames}
+        flat = ' '.join(body.split())
+        edits.append((db, de, ''))
+        # uses of NAME after the definition
+        last_call_end = de
+        for kk in range(len(toks)):
+            if toks[kk][0] == 'ident' and txt(kk) == name and toks[kk][1] >= de:
+                if kk + 1 >= len(toks) or txt(kk + 1) != '(' or (kk > 0 and txt(kk - 1) in ('.', '&', ':')):
+                    return None, 0
+                ao = toks[kk + 1][1]
+                ae = match_close(s, ao)
+                args = split_args(s, ao + 1, ae - 1)
+                if len(args) != len(pnames):
+                    return None, 0
+                for a in args:
+                    if {a[b:e] for t, b, e in sig_tokens(a) if t == 'ident'} & {p for p, _ in pnames}:
+                        return None, 0
+                lets = ' '.join('let %s: %s = %s;' % (p, ty, a) for (p, ty), a in zip(pnames, args))
+                edits.append((toks[kk][1], ae, '{ %s %s }' % (lets, flat)))
+                last_call_end = max(last_call_end, ae)
+                n += 1
+        # a free name of the body re-bound between the definition and the last call
+        for kk in range(len(toks) - 2):
+            if de <= toks[kk][1] < last_call_end and txt(kk) == 'let':
+                j = kk + 1
+                if txt(j) == 'mut':
+                    j += 1
+                if toks[j][0] == 'ident' and txt(j) in body_idents and txt(j) != name and not any(d[0] == txt(j) for d in defs):
+                    return None, 0
+    return apply_edits(s, edits), n
